@@ -71,6 +71,7 @@ func vhTrimStack(s string) string {
 }
 
 func TestVerifReplay(t *testing.T) {
+	race := os.Getenv("VERIF_RACE") == "1"
 	in := os.Getenv("VERIF_REPLAY_IN")
 	out := os.Getenv("VERIF_REPLAY_OUT")
 	if in == "" || out == "" {
@@ -91,7 +92,19 @@ func TestVerifReplay(t *testing.T) {
 			t.Fatalf("unknown harness %s", c.Harness)
 		}
 		for wi, w := range c.Witnesses {
-			oc, detail, obs, label := vhRunOne(fn, c.Params, w.Vector)
+			var oc, detail, label string
+			var obs []string
+			if race {
+				vhRaceMode = true
+				ok := t.Run(fmt.Sprintf("w%d_%d", ci, wi), func(st *testing.T) {
+					oc, detail, obs, label = vhRunOne(fn, c.Params, w.Vector)
+				})
+				if !ok && oc == "ok" {
+					oc = "race"
+				}
+			} else {
+				oc, detail, obs, label = vhRunOne(fn, c.Params, w.Vector)
+			}
 			results = append(results, vhResult{Case: ci, Witness: wi, Outcome: oc, Obs: obs, Detail: detail, Label: label})
 		}
 	}
